@@ -97,13 +97,26 @@ impl WithdrawalsBuilder {
     pub fn get_plutus_witnesses(&self) -> PlutusWitnesses {
         let tag = RedeemerTag::new_reward();
         let mut scripts = PlutusWitnesses::new();
-        for (i, (_, (_, script_wit))) in self.withdrawals.iter().enumerate() {
+        for (address, (_, script_wit)) in self.withdrawals.iter() {
             if let Some(ScriptWitnessType::PlutusScriptWitness(s)) = script_wit {
-                let index = BigNum::from(i);
+                // the ledger indexes reward redeemers by the rank of the reward account in its own
+                // sorted order, whatever the order the withdrawals were added (and are written) in
+                let index = BigNum::from(self.ledger_rank(address));
                 scripts.add(&s.clone_with_redeemer_index_and_tag(&index, &tag));
             }
         }
         scripts
+    }
+
+    /// number of withdrawals whose reward account precedes `address` in the ledger's order
+    fn ledger_rank(&self, address: &RewardAddress) -> usize {
+        let mut rank = 0;
+        for (other, _) in self.withdrawals.iter() {
+            if reward_account_precedes(other, address) {
+                rank += 1;
+            }
+        }
+        rank
     }
 
     pub fn get_ref_inputs(&self) -> TransactionInputs {
@@ -176,11 +189,36 @@ impl WithdrawalsBuilder {
     }
 
     pub fn build(&self) -> Withdrawals {
-        let map = self
-            .withdrawals
-            .iter()
-            .map(|(k, (v, _))| (k.clone(), v.clone()))
+        // written in the ledger's order, the order the reward redeemer indices refer to
+        let mut entries: Vec<(&RewardAddress, &Coin)> =
+            self.withdrawals.iter().map(|(k, (v, _))| (k, v)).collect();
+        entries.sort_by(|a, b| {
+            if reward_account_precedes(a.0, b.0) {
+                std::cmp::Ordering::Less
+            } else if reward_account_precedes(b.0, a.0) {
+                std::cmp::Ordering::Greater
+            } else {
+                std::cmp::Ordering::Equal
+            }
+        });
+        let map = entries
+            .into_iter()
+            .map(|(k, v)| (k.clone(), v.clone()))
             .collect();
         Withdrawals(map)
     }
+}
+
+/// Strict order of reward accounts as the ledger sorts them (`Map RewardAccount Coin`):
+/// by network id, then script credentials before key credentials, then by hash bytes.
+pub(crate) fn reward_account_precedes(a: &RewardAddress, b: &RewardAddress) -> bool {
+    if a.network != b.network {
+        return a.network < b.network;
+    }
+    let a_is_key = !a.payment.has_script_hash();
+    let b_is_key = !b.payment.has_script_hash();
+    if a_is_key != b_is_key {
+        return b_is_key;
+    }
+    a.payment.to_raw_bytes() < b.payment.to_raw_bytes()
 }
